@@ -159,6 +159,27 @@ PROPS = {
                   "P+id=P, P+sP=(s+1)P",
         "assumptions": COMMON_ASSUMPTIONS,
     },
+    "C09": {
+        "test": "TestC09", "variant": "msm",
+        "quick": {"shards": 16, "timeout": 2400,
+                  "matrix": [{"cpus": c} for c in (16, 16, 1, 3, 16, 2, 5, 16, 1, 7, 16, 4, 16, 3, 16, 1)]},
+        "thorough": {"shards": 32, "timeout": 14400, "matrix": [{"cpus": c} for c in range(16, 0, -1)]},
+        "rule": "public path (banderwagon.Element.MultiExp, bandersnatch.MultiExp, ipa.MultiScalar): n in {0..8, every window "
+                "threshold 49,129,321,769,1793,4097,9217,20481 -2..+1, 1..300, 1..5000; thorough adds 45057, 98305, 212993, "
+                "458753}; NbTasks in {0,1,2,3,5,16,32,52,63,64,65,128,129,256,1024, uniform 0..1100}; both ScalarsMont values; "
+                "scalar vectors {uniform, zero, all small, 15% / 5% small (first-chunk split on/off), per-window digit recipes "
+                "for widths 4..16, limb patterns, one-hot}; points drawn with repetition from a pool of 8192 points with "
+                "known discrete logs, duplicates, identity points, non-normalised representations; length mismatch; processes "
+                "pinned to 1..16 CPUs. Internal path (hook): every c in {4..16} x splitFirstChunk x n in {1,2,3,7,64,143} "
+                "deterministically plus rapid cases, c=20 and c=21 once each (c=22 and more in thorough), scalars through "
+                "partitionScalars. Non-trivial = n >= 2 with a split, the first-chunk split path, a window width other than "
+                "6, or a digit/limb recipe; distinct by the case.",
+        "oracle": "sum s_i*P_i = (sum s_i*a_i mod r)*G from the known discrete logs, one reference scalar multiplication, compared "
+                  "by reference equality on raw coordinates; length mismatch must return an error; caller's scalars unchanged; "
+                  "termination by a watchdog 2-3 orders of magnitude above the normal cost with goroutine-dump classification",
+        "assumptions": COMMON_ASSUMPTIONS + ["the harness recomputes the cost model only to label cases with the (c, nbSplits) "
+                                             "they exercise", "NumCPU > 16 is emulated by NbTasks up to 1100"],
+    },
     "C16": {
         "test": "TestC16", "variant": "elem",
         "quick": {"shards": 16, "timeout": 900},
